@@ -28,12 +28,14 @@ package lfsapi
 //@ func (*Client).doWithAuth
 //@   props C10
 //@   recgroup authredirect
+//@   requires len(via) <= 2
 //@   decreases 3 - len(via), 1
 //@ func (*Client).doWithCreds
 //@   props C10
 //@   recgroup authredirect
 //@   requires @inv req != nil && req.URL != nil && req.Header != nil
 //@   requires @inv forall_v(k, has(req.Header, k), has(req.Header, k) ==> str_canon(k) == k)
+//@   requires len(via) <= 2
 //@   decreases 3 - len(via), 0
 
 // getCreds is a separate unit (its body is not spliced into doWithAuth).
